@@ -3,6 +3,7 @@
 package run
 
 import (
+	"bytes"
 	"context"
 	"crypto/tls"
 	"errors"
@@ -98,6 +99,7 @@ type Exec struct {
 	scripts map[string]M
 	nextID  int
 	served  chan error
+	kept    []retained
 	Sched   *Sched // set when goroutines are under schedule control (C16 / C15)
 	Global  wire.Parameters
 	ctxMu   sync.Mutex
@@ -234,7 +236,47 @@ func (x *Exec) connOf(ctx context.Context) int {
 }
 
 func (x *Exec) cb(ctx context.Context, c M) {
+	c["intact"] = x.Intact()
 	x.Log.Append(mem.Ev{"k": "cb", "conn": x.connOf(ctx), "c": c})
+}
+
+// retained is a piece of data the library handed to a callback, kept alive by
+// the harness together with a private copy made at that moment (C18).
+type retained struct {
+	str  string
+	live []byte
+	copy []byte
+}
+
+func (x *Exec) retainStr(s string) {
+	x.ctxMu.Lock()
+	x.kept = append(x.kept, retained{str: s, copy: []byte(strings.Clone(s))})
+	x.ctxMu.Unlock()
+}
+
+func (x *Exec) retainBytes(b []byte) {
+	if b == nil {
+		return
+	}
+	x.ctxMu.Lock()
+	x.kept = append(x.kept, retained{live: b, copy: append([]byte{}, b...)})
+	x.ctxMu.Unlock()
+}
+
+// Intact reports whether everything retained so far still has its exact content.
+func (x *Exec) Intact() bool {
+	x.ctxMu.Lock()
+	defer x.ctxMu.Unlock()
+	for _, r := range x.kept {
+		if r.live != nil {
+			if !bytes.Equal(r.live, r.copy) {
+				return false
+			}
+		} else if r.str != string(r.copy) {
+			return false
+		}
+	}
+	return true
 }
 
 func paramsObj(p wire.Parameters) M {
@@ -276,6 +318,9 @@ func (x *Exec) withCtx(ctx context.Context, rec M, command bool) M {
 }
 
 func (x *Exec) validate(ctx context.Context, database, username, password string) (context.Context, bool, error) {
+	x.retainStr(database)
+	x.retainStr(username)
+	x.retainStr(password)
 	ret := "bad"
 	switch {
 	case strings.HasPrefix(password, "good"):
@@ -303,6 +348,10 @@ func (x *Exec) middleware(ctx context.Context, idx int, outcome string) (context
 		seen = append(seen, i)
 	}
 	_ = seen
+	for k, v := range wire.ClientParameters(ctx) {
+		x.retainStr(string(k))
+		x.retainStr(v)
+	}
 	x.cb(ctx, x.withCtx(ctx, M{"name": "mw", "i": idx}, false))
 	if outcome != "ok" {
 		return ctx, errors.New("middleware failed")
@@ -350,6 +399,11 @@ func BuildErr(e M) error {
 }
 
 func (x *Exec) parse(ctx context.Context, query string) (wire.PreparedStatements, error) {
+	x.retainStr(query)
+	for k, v := range wire.ClientParameters(ctx) {
+		x.retainStr(string(k))
+		x.retainStr(v)
+	}
 	key := strings.TrimSpace(query)
 	if i := strings.IndexByte(key, ' '); i >= 0 {
 		key = key[:i]
@@ -437,6 +491,7 @@ func (x *Exec) runStmt(ctx context.Context, w wire.DataWriter, params []wire.Par
 	ps := []any{}
 	for i, p := range params {
 		rec := M{"fmt": int(p.Format())}
+		x.retainBytes(p.Value())
 		if p.Value() == nil {
 			rec["null"] = true
 		} else {
